@@ -8,7 +8,14 @@
 // is the connect reply.
 //
 // Odd case indexes (part 2, ws.go) run in real time against the real WebsocketHandler with a
-// recording DictionaryCompression engine and a raw WebSocket client.
+// recording DictionaryCompression engine and a raw WebSocket client; some of its connections meet
+// a slow engine on a node whose stale-connection timer fires while the engine call is blocked.
+//
+// Part 3 (second bubble of the even case indexes): the harness's own DictionaryAwareTransport,
+// a slow engine (virtual sleep inside NewDictionaryConnection / Dictionary()) and a close from
+// Client.Disconnect, the transport's close function or the stale-connection timer landing before,
+// during or after that call; every encoder handed to the library must have been closed exactly
+// once when the connection is completely over.
 package c11
 
 import (
@@ -586,6 +593,388 @@ func keysOf(m map[string]bool) []string {
 	return out
 }
 
+// ---------------------------------------------------------------------------------------------
+// part 3: a slow compression engine and a close that lands during its call (virtual time)
+//
+// The real WebSocket handler processes the connect command on the goroutine that owns the read
+// loop, so over it only the stale-connection timer can close a connection while the engine is
+// consulted (part 2 drives that). Here the transport is the harness's own DictionaryAwareTransport
+// (the interface is exported for exactly that) over kit.RecTransport inside a bubble, which makes
+// the other origins of a close available: Client.Disconnect, the transport's close function, the
+// stale-connection timer in virtual time. connectCmd holds no mutex while it calls
+// NewDictionaryConnection / Dictionary(), so the engine may sleep (virtual time) there.
+
+// dictTransport mirrors websocketTransport's handling of the encoder: SetDictionaryCompression
+// parks it for one frame (the connect reply), the first write promotes it, every later message
+// goes through Encode, CloseDictionaryCompression closes whichever of the two slots is occupied.
+type dictTransport struct {
+	*kit.RecTransport
+	w           *kit.World
+	compression atomic.Pointer[centrifuge.DictionaryConnection]
+	pending     atomic.Pointer[centrifuge.DictionaryConnection]
+
+	mu        sync.Mutex
+	wire      [][]byte
+	setSeqs   []int64
+	closeSeqs []int64
+}
+
+func (t *dictTransport) SetDictionaryCompression(cc centrifuge.DictionaryConnection) {
+	t.mu.Lock()
+	t.setSeqs = append(t.setSeqs, t.w.Seq())
+	t.mu.Unlock()
+	t.pending.Store(&cc)
+}
+
+func (t *dictTransport) CloseDictionaryCompression() {
+	t.mu.Lock()
+	t.closeSeqs = append(t.closeSeqs, t.w.Seq())
+	t.mu.Unlock()
+	if ccp := t.compression.Swap(nil); ccp != nil {
+		(*ccp).Close()
+		return
+	}
+	if ccp := t.pending.Swap(nil); ccp != nil {
+		(*ccp).Close()
+	}
+}
+
+func (t *dictTransport) Write(m []byte) error { return t.WriteMany(m) }
+
+func (t *dictTransport) WriteMany(ms ...[]byte) error {
+	if closed, _, _ := t.Closed(); closed {
+		return nil
+	}
+	for _, m := range ms {
+		out := m
+		if ccp := t.compression.Load(); ccp != nil {
+			out, _ = (*ccp).Encode(m)
+		} else if t.pending.Load() != nil {
+			if p := t.pending.Swap(nil); p != nil {
+				t.compression.Store(p)
+			}
+		}
+		t.mu.Lock()
+		t.wire = append(t.wire, append([]byte(nil), out...))
+		t.mu.Unlock()
+	}
+	return t.RecTransport.WriteMany(ms...)
+}
+
+type p3Conn struct {
+	Plan     *wsPlan
+	Origin   string // client_disconnect | close_fn | stale_timer | none: where the racing close comes from
+	When     string // in_engine_call: launched from inside the slow engine call | timed: AtMs after the connect command
+	AtMs     int
+	EngineMs int // virtual duration of every slow engine call
+	StartMs  int
+	Pubs     int
+	EndBy    string // for connections that got connected: client_disconnect | close_fn | node_disconnect
+
+	t       *dictTransport
+	cl      *centrifuge.Client
+	closeFn centrifuge.ClientCloseFunc
+	ready   chan struct{}
+	fired   atomic.Bool
+	// world sequence numbers around the slow engine calls
+	engineEnter atomic.Int64
+	engineExit  atomic.Int64
+}
+
+const p3ConnectID = 7
+
+func (pc *p3Conn) fire() {
+	if !pc.fired.CompareAndSwap(false, true) {
+		return
+	}
+	switch pc.Origin {
+	case "client_disconnect":
+		pc.cl.Disconnect(centrifuge.DisconnectForceNoReconnect)
+	case "close_fn":
+		go func() { _ = pc.closeFn() }()
+	}
+}
+
+func decodeOne(proto string, b []byte) *protocol.Reply {
+	var rep protocol.Reply
+	if proto == "protobuf" {
+		if err := rep.UnmarshalVT(b); err != nil {
+			return nil
+		}
+		return &rep
+	}
+	r, err := protocol.NewJSONReplyDecoder(b).Decode()
+	if err != nil {
+		return nil
+	}
+	return r
+}
+
+func runPart3(c *kit.Case) {
+	r := c.R
+	w := kit.NewWorld(c)
+	eng := &recEngine{plans: map[string]*wsPlan{}, conns: map[string][]*recDC{}}
+	staleMs := kit.Pick(r, []int{15, 30, 3600000})
+	nConn := r.Range(2, 4)
+	conns := make([]*p3Conn, nConn)
+	byName := map[string]*p3Conn{}
+	for i := range conns {
+		p := &wsPlan{Idx: i, User: fmt.Sprintf("v%d", i), Name: fmt.Sprintf("p3c%d", i)}
+		p.Proto = kit.Pick(r, []string{"json", "protobuf"})
+		p.Advertise = !r.Chance(1, 10)
+		p.Mode = kit.Pick(r, []string{"normal", "normal", "normal", "held", "held", "decline", "unheld"})
+		p.Channel = fmt.Sprintf("c11:v%d", i)
+		// no delays inside Encode / Close: Close runs with the connection's connect mutex held
+		pc := &p3Conn{Plan: p, ready: make(chan struct{})}
+		pc.Origin = kit.Pick(r, []string{"client_disconnect", "client_disconnect", "close_fn", "close_fn", "stale_timer", "none"})
+		if pc.Origin == "stale_timer" && staleMs > 1000 {
+			pc.Origin = kit.Pick(r, []string{"client_disconnect", "close_fn"})
+		}
+		pc.When = kit.Pick(r, []string{"in_engine_call", "in_engine_call", "timed"})
+		pc.StartMs = r.Range(0, 6)
+		pc.EngineMs = r.Range(1, 25)
+		pc.AtMs = r.Range(0, 30)
+		if pc.Origin == "stale_timer" {
+			// the timer runs from the creation of the client (StartMs): make the engine outlast it
+			pc.EngineMs = staleMs + r.Range(1, 10)
+		}
+		pc.Pubs = r.Range(0, 5)
+		pc.EndBy = kit.Pick(r, []string{"client_disconnect", "close_fn", "node_disconnect"})
+		if !r.Chance(1, 8) {
+			sl := &slowSpec{At: kit.Pick(r, []string{"new", "new", "dictionary", "both"})}
+			sl.wait = func(string) {
+				sl.entered.Add(1)
+				pc.engineEnter.CompareAndSwap(0, w.Seq())
+				if pc.When == "in_engine_call" {
+					pc.fire()
+				}
+				// connectCmd holds no mutex here, and nothing in a close() waits for connectCmd
+				// before the client is registered: a virtual sleep cannot freeze the bubble
+				time.Sleep(time.Duration(pc.EngineMs) * time.Millisecond)
+				pc.engineExit.Store(w.Seq())
+			}
+			p.Slow = sl
+		} else {
+			pc.When = "timed"
+		}
+		conns[i] = pc
+		byName[p.Name] = pc
+		eng.plans[p.User] = p
+	}
+
+	node, _ := w.NewNode(centrifuge.Config{DictionaryCompression: eng, ClientStaleCloseDelay: time.Duration(staleMs) * time.Millisecond}, func(n *centrifuge.Node) {
+		n.OnConnecting(func(_ context.Context, e centrifuge.ConnectEvent) (centrifuge.ConnectReply, error) {
+			pc := byName[e.Name]
+			if pc == nil {
+				return centrifuge.ConnectReply{}, centrifuge.DisconnectBadRequest
+			}
+			return centrifuge.ConnectReply{
+				Credentials:   &centrifuge.Credentials{UserID: pc.Plan.User},
+				Subscriptions: map[string]centrifuge.SubscribeOptions{pc.Plan.Channel: {}},
+			}, nil
+		})
+		n.OnConnect(func(cl *centrifuge.Client) {})
+	})
+
+	var wg sync.WaitGroup
+	for _, pc := range conns {
+		pc := pc
+		p := pc.Plan
+		if pc.When == "timed" && pc.Origin != "none" && pc.Origin != "stale_timer" {
+			wg.Add(1)
+			go func() {
+				defer wg.Done()
+				<-pc.ready
+				time.Sleep(time.Duration(pc.AtMs)*time.Millisecond + 100*time.Microsecond)
+				pc.fire()
+			}()
+		}
+		wg.Add(1)
+		go func() {
+			defer wg.Done()
+			time.Sleep(time.Duration(pc.StartMs) * time.Millisecond)
+			pt := centrifuge.ProtocolTypeJSON
+			if p.Proto == "protobuf" {
+				pt = centrifuge.ProtocolTypeProtobuf
+			}
+			pc.t = &dictTransport{RecTransport: w.NewTransport(kit.TransportOpts{Protocol: pt}), w: w}
+			cl, closeFn, err := centrifuge.NewClient(context.Background(), node, pc.t)
+			if err != nil {
+				panic(fmt.Sprintf("c11 part 3: NewClient: %v", err))
+			}
+			pc.cl, pc.closeFn = cl, closeFn
+			close(pc.ready)
+			req := &protocol.ConnectRequest{Name: p.Name}
+			if p.Advertise {
+				req.Flag = centrifuge.ConnectionFlagDictionaryCompression
+			}
+			if p.Mode == "held" {
+				req.Dict = "held-dict-id"
+			}
+			cmd := &protocol.Command{Id: p3ConnectID, Connect: req}
+			cl.HandleCommand(cmd, cmd.SizeVT())
+			// a connection that got through: traffic through the encoder, then an ordinary end
+			for i := 0; i < pc.Pubs; i++ {
+				if closed, _, _ := pc.t.Closed(); closed {
+					break
+				}
+				_, _ = node.Publish(p.Channel, []byte(fmt.Sprintf(`{"n":%d}`, i)))
+				_ = cl.Send([]byte(`{"p3":"send"}`))
+				time.Sleep(time.Millisecond)
+			}
+			switch pc.EndBy {
+			case "client_disconnect":
+				cl.Disconnect(centrifuge.DisconnectForceNoReconnect)
+			case "close_fn":
+				_ = closeFn()
+			case "node_disconnect":
+				_ = node.Disconnect(p.User)
+			}
+		}()
+	}
+	wg.Wait()
+	time.Sleep(2 * time.Second)
+	synctest.Wait()
+	for _, pc := range conns {
+		_ = pc.closeFn()
+	}
+	time.Sleep(time.Second)
+	synctest.Wait()
+	w.Shutdown()
+
+	// ---- oracle: every connection is completely over now (all goroutines of the bubble but this
+	// one have exited or are durably blocked, the node is shut down)
+	var sigs []string
+	for _, pc := range conns {
+		p := pc.Plan
+		c.Eval(1)
+		c.Count("p3_connections_judged", 1)
+		eng.mu.Lock()
+		dcs := append([]*recDC(nil), eng.conns[p.User]...)
+		eng.mu.Unlock()
+		pc.t.mu.Lock()
+		wire := append([][]byte(nil), pc.t.wire...)
+		setSeqs := append([]int64(nil), pc.t.setSeqs...)
+		closeSeqs := append([]int64(nil), pc.t.closeSeqs...)
+		pc.t.mu.Unlock()
+		_, disc, _ := pc.t.Closed()
+		endedBy := "other"
+		switch disc.Code {
+		case centrifuge.DisconnectStale.Code:
+			endedBy = "stale_timer"
+		case centrifuge.DisconnectForceNoReconnect.Code:
+			endedBy = "client_disconnect"
+		case centrifuge.DisconnectConnectionClosed.Code:
+			endedBy = "close_fn"
+		}
+		enter, exit := pc.engineEnter.Load(), pc.engineExit.Load()
+		landed := false
+		if enter > 0 && len(closeSeqs) > 0 && closeSeqs[0] > enter && closeSeqs[0] < exit {
+			// close() reached CloseDictionaryCompression while the engine call was in progress
+			landed = true
+			c.Count("p3_close_landed_during_slow_engine_call_"+endedBy, 1)
+			c.Count("p3_close_landed_during_slow_engine_call_at_"+p.Slow.At, 1)
+		}
+		installedAfterClose := len(setSeqs) > 0 && len(closeSeqs) > 0 && closeSeqs[0] < setSeqs[0]
+		if installedAfterClose {
+			c.Count("p3_encoder_installed_after_close_had_closed_compression", 1)
+		}
+		detail := map[string]any{"connection": pc, "engine_call_seq": []int64{enter, exit}, "set_dictionary_compression_seq": setSeqs,
+			"close_dictionary_compression_seq": closeSeqs, "transport_closed_with": disc, "wire_frames": len(wire), "stale_close_delay_ms": staleMs}
+		if len(dcs) > 1 {
+			report(c, classOther, fmt.Sprintf("part 3 connection %d: NewDictionaryConnection produced %d encoders for one connection", p.Idx, len(dcs)), detail)
+		}
+		state := "no_encoder"
+		for _, dc := range dcs {
+			detail["encode_calls"] = dc.calls.Load()
+			detail["close_calls"] = dc.closed.Load()
+			switch n := dc.closed.Load(); {
+			case n == 0:
+				state = "never_closed"
+				why := "the connection is over (transport closed, node shut down, bubble quiescent)"
+				if landed {
+					why += fmt.Sprintf("; close() (%s) ran while the engine was inside its slow %s call, so the encoder was handed over after the connection's one-shot close had called CloseDictionaryCompression", endedBy, p.Slow.At)
+				}
+				report(c, classNeverClosed, fmt.Sprintf("part 3 connection %d: DictionaryConnection.Close was never called although %s", p.Idx, why), detail)
+			case n == 1:
+				state = "closed_once"
+				c.Count("p3_encoder_closed_exactly_once", 1)
+				if landed {
+					c.Count("p3_encoder_handed_over_during_close_closed_exactly_once", 1)
+				}
+			default:
+				state = "closed_more_than_once" // reported by the engine itself
+			}
+			if dc.mode == "unheld" && dc.calls.Load() > 0 {
+				report(c, classUnheldInstalled, fmt.Sprintf("part 3 connection %d: Encode was called %d times on an encoder that named a dictionary the client never advertised", p.Idx, dc.calls.Load()), detail)
+			}
+		}
+		// wire: when the connect reply is the first frame it is untagged and everything after it
+		// carries the tag of one Encode call, in call order
+		first := "nothing"
+		if len(wire) > 0 {
+			body, tagged := wire[0], hasTag(wire[0])
+			if tagged {
+				body = body[tagLen:]
+			}
+			first = replyKind(decodeOne(p.Proto, body), p3ConnectID)
+			if len(dcs) == 1 && dcs[0].mode != "unheld" && first == "connect_reply" {
+				dc := dcs[0]
+				if tagged {
+					report(c, classReplyEncoded, fmt.Sprintf("part 3 connection %d: the connect reply went through Encode", p.Idx), detail)
+				} else {
+					c.Count("p3_untagged_connect_reply_first", 1)
+					for i := 1; i < len(wire); i++ {
+						f := wire[i]
+						if !hasTag(f) {
+							report(c, classBypass, fmt.Sprintf("part 3 connection %d: frame %d (after the connect reply) carries no encoder tag", p.Idx, i), detail)
+							break
+						}
+						id, ctr := uint32(f[4])<<24|uint32(f[5])<<16|uint32(f[6])<<8|uint32(f[7]), uint64(0)
+						for _, b := range f[8:16] {
+							ctr = ctr<<8 | uint64(b)
+						}
+						if id != dc.id || ctr != uint64(i) {
+							report(c, classTagOrder, fmt.Sprintf("part 3 connection %d: frame %d carries tag (encoder %d, call %d), expected (encoder %d, call %d)", p.Idx, i, id, ctr, dc.id, i), detail)
+							break
+						}
+						c.Count("p3_tagged_frames_checked", 1)
+					}
+				}
+			} else if len(dcs) == 0 || dcs[0].mode == "unheld" {
+				for i, f := range wire {
+					if hasTag(f) {
+						report(c, classNotNegotiated, fmt.Sprintf("part 3 connection %d: frame %d carries an encoder tag although compression was not negotiated", p.Idx, i), detail)
+						break
+					}
+				}
+			}
+		}
+		slowAt := "none"
+		if p.Slow != nil {
+			slowAt = p.Slow.At
+		}
+		sigs = append(sigs, fmt.Sprintf("%s:%s:adv%v:slow=%s:%s/%s:landed%v:after%v:end=%s:first=%s:%s", p.Proto, p.Mode, p.Advertise, slowAt, pc.Origin, pc.When, landed, installedAfterClose, endedBy, first, state))
+		if c.Index < 64 {
+			c.Sample(map[string]any{"part": 3, "connection": pc, "close_landed_during_engine_call": landed, "ended_by": endedBy, "encoder": state, "wire_frames": len(wire)})
+		}
+	}
+	eng.mu.Lock()
+	viol := append([]engViol(nil), eng.viol...)
+	eng.mu.Unlock()
+	seen := map[string]bool{}
+	for _, v := range viol {
+		c.Count("p3_engine_reports_"+v.Class, 1)
+		if seen[v.Class+v.User] {
+			continue
+		}
+		seen[v.Class+v.User] = true
+		report(c, v.Class, fmt.Sprintf("part 3 user %s: %s", v.User, v.Msg), map[string]any{"plan": eng.plans[v.User]})
+	}
+	sort.Strings(sigs)
+	c.Nontrivial("p3|" + strings.Join(sigs, "|"))
+}
+
 // inBubble runs fn inside a synctest bubble the way kit.Main does for Spec.Bubble.
 func inBubble(c *kit.Case, fn func(c *kit.Case)) {
 	defer func() {
@@ -611,6 +1000,8 @@ func inBubble(c *kit.Case, fn func(c *kit.Case)) {
 func runCase(c *kit.Case) {
 	if c.Index%2 == 0 {
 		inBubble(c, runPart1)
+		// part 3 draws from c.R after part 1 has made all its choices
+		inBubble(c, runPart3)
 		return
 	}
 	runPart2(c)
@@ -623,7 +1014,9 @@ func TestC11(t *testing.T) {
 		Rule: "even case indexes (part 1): one virtual-time bubble with 1-2 bidirectional kit.RecTransport connections (JSON/Protobuf, optionally the same user) whose OnConnecting returns 1-3 server-side subscriptions (plain / plain with history / positioned / recoverable, join-leave, presence; ReplyWithoutQueue and WriteDelay varied), publishers on those channels, and 3-14 timed racing operations (Client.Send on clients taken from the hub, Node.Subscribe, Node.Unsubscribe, Node.Refresh, Node.Publish, sometimes Node.Disconnect); " +
 			"connect.afterAddClient is widened by a virtual sleep, connect.beforeReply by a sleep (no positioned subscription), connect.beforeReply/afterReply by launching an operation and busy-yielding (positioned subscriptions: recovery-buffer lock held); oracle: the first frame handed to the transport is the connect reply (a lone disconnect push is accepted when no connect reply is ever written). " +
 			"Odd case indexes (part 2): real time, real NewWebsocketHandler (httptest) with Config.DictionaryCompression set to a recording engine, 4-8 raw WebSocket connections per case built with internal/websocket.Dialer (JSON/Protobuf; flag advertised or not; engine declining, naming a held id, naming an unheld id; ReplyWithoutQueue, WriteDelay), publications / Client.Send / Node.Subscribe / client pings and RPCs at PRNG-chosen moments, a racing operation inside the connect window, ended by server disconnect, client close, close during connect or during a burst; " +
-			"oracle: first data frame is the untagged connect reply, every later frame carries the tag of exactly one Encode call in call order, Close exactly once per created DictionaryConnection, never during an Encode, no Encode after Close (checked inside Encode/Close with atomics). Non-trivial = a connection whose frame sequence was judged; signature = configuration x first frame kind x racing operations that reached the client before its connect reply x how the connection ended.",
+			"oracle: first data frame is the untagged connect reply, every later frame carries the tag of exactly one Encode call in call order, Close exactly once per created DictionaryConnection, never during an Encode, no Encode after Close (checked inside Encode/Close with atomics). Slow engine: 0-2 extra part 2 connections per case on a second node (ClientStaleCloseDelay 20-50 ms) whose NewDictionaryConnection and/or Dictionary() blocks until the raw client has read the connection's end (the stale-connection timer is the only close that can land there over the real WebSocket handler) or sleeps 0.2 ms - a little more than the stale delay; same oracle. " +
+			"Part 3 (second bubble of the even case indexes): 2-4 connections over the harness's DictionaryAwareTransport (websocketTransport's pending/promote/close logic over kit.RecTransport), engine call slow by a virtual sleep (connectCmd holds no mutex there) at new / dictionary / both, racing close from Client.Disconnect, the close function of the transport, or the stale-connection timer (15/30 ms), launched from inside the engine call or at a PRNG-chosen time; connections that get through carry publications and sends and are ended by Client.Disconnect / close function / Node.Disconnect; oracle after the node is shut down and the bubble quiescent: every DictionaryConnection handed to the library was closed exactly once, no Encode after or during Close, untagged connect reply first and tagged frames in call order. " +
+			"Non-trivial = a connection whose frame sequence was judged; signature = configuration x first frame kind x racing operations that reached the client before its connect reply x how the connection ended.",
 		Assumptions: []string{
 			"Client.Send is applied to clients obtained from Node.Hub().UserConnections, i.e. only once the client is registered",
 			"a disconnect push that is the only thing written (no connect reply ever) is accepted: it is how the protocol refuses a connection",
@@ -631,6 +1024,8 @@ func TestC11(t *testing.T) {
 			"part 2 waits are bounded (10-45 s); a timeout makes the case inconclusive",
 			"each violation class is reported at most 3 times per child process (the rest is counted in violations_observed_<class>) so that a frequent finding does not truncate the run",
 			"the recording engine sleeps up to 300 microseconds inside Encode and Close to widen overlap windows",
+			"part 2 slow engine: the gate inside the engine call opens when the raw client's read fails (close frame or EOF); Client.close writes the close frame after CloseDictionaryCompression, so the encoder is handed over after the one-shot close is past that call; the verdict uses the same end-of-connection events as the other part 2 connections (the server closes the TCP connection only after the handler left its read loop, i.e. after connectCmd returned)",
+			"part 3: the transport is harness code implementing the exported DictionaryAwareTransport the way websocketTransport does; Node.Disconnect cannot reach a client during the engine call (it is registered in the hub later), so it is only used to end connected clients",
 		},
 		Cases:       map[string]int{"quick": 640, "thorough": 9600},
 		CaseTimeout: 300 * time.Second,
@@ -640,6 +1035,10 @@ func TestC11(t *testing.T) {
 			"p1_op_started_in_hub_before_connect_reply_publish", "p1_op_started_in_hub_before_connect_reply_disconnect",
 			"p2_connections_negotiated", "p2_connections_not_negotiated", "p2_tagged_frames_checked", "p2_encoder_closed_cause_server_disconnect", "p2_encoder_closed_cause_client_close",
 			"p2_encoder_closed_cause_disconnect_during_connect", "p2_encoder_closed_cause_client_close_immediately", "p2_encoder_closed_cause_unheld_id_refused", "p2_close_checked_at_on_disconnect",
+			"p2_slow_engine_close_landed_during_engine_call_stale_timer", "p2_slow_engine_encoder_handed_over_after_close_had_finished", "p2_slow_engine_call_entered_at_new", "p2_slow_engine_call_entered_at_dictionary", "p2_slow_engine_connections_short",
+			"p3_close_landed_during_slow_engine_call_client_disconnect", "p3_close_landed_during_slow_engine_call_close_fn", "p3_close_landed_during_slow_engine_call_stale_timer",
+			"p3_close_landed_during_slow_engine_call_at_new", "p3_close_landed_during_slow_engine_call_at_dictionary", "p3_close_landed_during_slow_engine_call_at_both",
+			"p3_encoder_installed_after_close_had_closed_compression", "p3_encoder_handed_over_during_close_closed_exactly_once", "p3_encoder_closed_exactly_once", "p3_tagged_frames_checked",
 		},
 		Run: runCase,
 	})
